@@ -607,3 +607,55 @@ def compare_step(tr, j, answer, rel=1e-9):
     if tr['locked'][j] != r['locked']:
         return f"instant {j}: lock flag {tr['locked'][j]} vs model {r['locked']}"
     return None
+
+
+# --------------------------------------------------------------------------------------------
+# declarations -> assembly -> simulation inside the model (`s pipe`): ratios, efficiencies, the
+# chain order and the self-locking flag are *computed by the model* from the declared relations
+# --------------------------------------------------------------------------------------------
+
+PIPE_KIND = {'fly': 'flywheel', 'spur': 'spur', 'helical': 'helical', 'wormgear': 'wormGear', 'wormwheel': 'wormWheel'}
+
+
+def _qty_token(kind, vu):
+    if vu is None:
+        return '-'
+    from harness.units_h import uidx
+    return f'{kind}:{R(vu[0])}:{uidx(kind, vu[1])}'
+
+
+def pipe_line(spec, tr, b):
+    toks = ['motor,0,0,-,-,-,1,0,0,0,0,0']
+    for i, e in enumerate(spec['elems']):
+        o = b.objs[i + 1]
+        t = e['type']
+        worm = t in ('wormgear', 'wormwheel')
+        toks.append(','.join([
+            PIPE_KIND[t], str(i + 1), str(e.get('z', e.get('starts', 0))), _qty_token('Length', e.get('module')),
+            _qty_token('Angle', e.get('helix')) if t in ('helical', 'wormgear', 'wormwheel') else '-',
+            _qty_token('Angle', e.get('pa')) if worm else '-',
+            R(o.pressure_angle.cos()) if worm else '1', R(o.helix_angle.tan()) if worm else '0',
+            '1' if e.get('module') else '0', '1' if e.get('fw') else '0', '1' if (e.get('E') and t in ('spur', 'helical')) else '0',
+            '1' if e.get('d') else '0']))
+    decls = ';'.join(','.join([r[0], str(r[1]), str(r[2])] + ([R(r[3])] if len(r) > 3 else [])) for r in spec['rels'])
+    inertias = ','.join([siR('InertiaMoment', spec['motor']['J'])] + [siR('InertiaMoment', e['J']) for e in spec['elems']])
+    cfg = [t for t in model_cfg(spec, tr) if not t.startswith(('J0=', 'links=', 'sl='))]
+    rest = [f"pos={siR('AngularPosition', spec['init']['pos'])} speed={siR('AngularSpeed', spec['init']['speed'])}"]
+    if spec['motor'].get('pwm0') is not None:
+        rest.append(f"pwm0={R(spec['motor']['pwm0'])}")
+    rest.append('ops=' + ';'.join(model_ops(spec, tr)))
+    return 's pipe elems=' + ';'.join(toks) + ' decls=' + decls + ' inertias=' + inertias + ' ' + ' '.join(cfg) + ' ' + ' '.join(rest)
+
+
+def parse_pipe(line, spec, tr):
+    """-> (chain mismatch message or None, status, records)"""
+    if not line.startswith('chain='):
+        return f'model could not assemble the chain: {line[:80]}', {'ok': False}, []
+    head, rest = line.split(' ', 1)
+    chain = [int(x) for x in head[len('chain='):].split(',') if x]
+    names = ['motor'] + [e.get('name', f'e{i + 1}') for i, e in enumerate(spec['elems'])]
+    want = [names.index(n) for n in tr['names']]
+    st, recs = parse_hist(rest)
+    if chain != want:
+        return f'model chain {chain}, implementation chain {want}', st, recs
+    return None, st, recs
